@@ -62,7 +62,7 @@ def gen_case(rng, rows=None, cols=None, factor=None, hdr=None, mode=None, img=No
     cols = cols or rng.randint(2, hi)
     if factor is None:
         factor = rng.choice(POW2) if rng.random() < 0.5 else rng.randint(1, 64)
-    hdr = hdr or rng.choice(['cdelt', 'cd'])
+    hdr = hdr or rng.choice(['cdelt', 'cd', 'cd_rot'])
     mode = mode or rng.choice(['hdu', 'file', 'file', 'cli'])
     img = img or rng.choice(['int', 'int', 'bane', 'affine', 'real'])
     pow2 = factor in POW2
@@ -98,8 +98,12 @@ def gen_case(rng, rows=None, cols=None, factor=None, hdr=None, mode=None, img=No
         crpix = [Fraction(rng.randint(-2000, 2000), 16), Fraction(rng.randint(-2000, 2000), 16)]
         cd = [Fraction(-rng.randint(1, 3600), 3600 * 8), Fraction(rng.randint(1, 3600), 3600 * 8)]
         cd = [Fraction(float(x)) for x in cd]      # the binary64 value that the header will hold
+    # cd_rot: a full CD matrix (rotated / skewed image): off-diagonal terms that are non-zero (dyadic fractions of the diagonal ones)
+    off = [cd[0] * Fraction(rng.choice([1, -1, 3]), rng.choice([2, 4, 16])), cd[1] * Fraction(rng.choice([1, -1, -3]), rng.choice([2, 8]))] \
+        if hdr == 'cd_rot' else [Fraction(0), Fraction(0)]
+    off = [Fraction(float(x)) for x in off]
     return {'rows': rows, 'cols': cols, 'factor': factor, 'hdr': hdr, 'mode': mode, 'img': img, 'den': den,
-            'data': data, 'crpix': [str(x) for x in crpix], 'cd': [str(x) for x in cd], 'exact': bool(is_exact)}
+            'data': data, 'crpix': [str(x) for x in crpix], 'cd': [str(x) for x in cd], 'off': [str(x) for x in off], 'exact': bool(is_exact)}
 
 
 def case_label(case):
@@ -130,9 +134,10 @@ def build_hdul(case):
     crpix = [float(Fraction(x)) for x in case['crpix']]
     cd = [float(Fraction(x)) for x in case['cd']]
     h = make_header((rows, cols), crpix=crpix, cdelt=cd)
-    if case['hdr'] == 'cd':
+    if case['hdr'] in ('cd', 'cd_rot'):
+        off = [float(Fraction(x)) for x in case.get('off', ['0', '0'])]
         del h['CDELT1'], h['CDELT2']
-        h['CD1_1'], h['CD1_2'], h['CD2_1'], h['CD2_2'] = cd[0], 0.0, 0.0, cd[1]
+        h['CD1_1'], h['CD1_2'], h['CD2_1'], h['CD2_2'] = cd[0], off[0], off[1], cd[1]
     return fits.HDUList([fits.PrimaryHDU(data=data, header=h)]), data
 
 
@@ -293,8 +298,9 @@ def model_expr(case):
     ik = f'[("NAXIS", 2); ("NAXIS1", {cols}); ("NAXIS2", {rows})]'
     cr = [Fraction(x) for x in case['crpix']]
     cd = [Fraction(x) for x in case['cd']]
-    if case['hdr'] == 'cd':
-        rk = [('CRPIX1', cr[0]), ('CRPIX2', cr[1]), ('CD1_1', cd[0]), ('CD1_2', 0), ('CD2_1', 0), ('CD2_2', cd[1])]
+    if case['hdr'] in ('cd', 'cd_rot'):
+        off = [Fraction(x) for x in case.get('off', ['0', '0'])]
+        rk = [('CRPIX1', cr[0]), ('CRPIX2', cr[1]), ('CD1_1', cd[0]), ('CD1_2', off[0]), ('CD2_1', off[1]), ('CD2_2', cd[1])]
     else:
         rk = [('CRPIX1', cr[0]), ('CRPIX2', cr[1]), ('CDELT1', cd[0]), ('CDELT2', cd[1])]
     rks = '[' + '; '.join(f'("{k}", {q_lit(v)})' for k, v in rk) + ']'
@@ -470,7 +476,7 @@ def cases(ctx):
             if quick and (k % 2) and (r, c) not in ((2, 2), (5, 7), (9, 8)):
                 k += 1
                 continue
-            out.append(gen_case(rng, r, c, f, hdr=['cdelt', 'cd'][k % 2], mode=['hdu', 'file', 'cli', 'file'][k % 4],
+            out.append(gen_case(rng, r, c, f, hdr=['cdelt', 'cd', 'cd_rot'][k % 3], mode=['hdu', 'file', 'cli', 'file'][k % 4],
                                 img=['int', 'bane', 'affine', 'real', 'int'][k % 5]))
             k += 1
     for _ in range(110 if quick else 2500):
@@ -577,7 +583,7 @@ def search(ctx):
     rng = ctx.rng
     t0 = time.time()
     for mode in ('hdu', 'file', 'cli'):
-        for hdr in ('cdelt', 'cd'):
+        for hdr in ('cd_rot', 'cdelt', 'cd'):
             for f in (1, 2, 3, 4, 5, 7, 8, 9, 13, 16, 64):
                 for r in range(2, 12):
                     for c in (2, 3, 7, 10):
